@@ -652,6 +652,27 @@ func c20model(c *Ctx) bool {
 		}
 		get(lv.facet)
 	}
+	// datum names that merely resemble a name the WKT reader rewrites (proj4js rewrites exactly
+	// wgs_1984, new_zealand_1949 and new_zealand_geodetic_datum_1949, after dropping a leading d_):
+	// the shift written in the text is the one stored, as from the PROJ.4 spelling
+	for _, name := range []string{"WGS_1972", "D_WGS_1972", "WGS_1966", "World_Geodetic_System_1972", "New_Zealand_1950", "D_Model_1984"} {
+		facet := "towgs84(3,datum name " + name + ")"
+		w, why := run(`GEOGCS["GCS_Model",DATUM["` + name + `",SPHEROID["Model_Spheroid",P7,P8],TOWGS84[P9,P10,P11]],PRIMEM["Greenwich",0],UNIT["degree",0.0174532925199433]]`)
+		if why != "" {
+			setUnk(facet, "WKT with DATUM[%q, …, TOWGS84[P9,P10,P11]]: %s", name, why)
+			continue
+		}
+		dp, ok := w.fields["DatumParams"].(oSlice)
+		good := ok && dp.length() == 3
+		for i := 0; good && i < 3; i++ {
+			q, ok := symOf(dp.at(i))
+			good = ok && q.equal(polyVar(fmt.Sprintf("p%d", 9+i)))
+		}
+		if !good {
+			setBad(facet, "a WKT whose datum is named %q and carries TOWGS84[P9,P10,P11] gives SR.DatumParams = %s: the shift written in the text is lost (+towgs84=P9,P10,P11 keeps it; only the exact names the reader rewrites stand for a table entry)", name, showVal(w.fields["DatumParams"]))
+		}
+		get(facet)
+	}
 	{
 		if w7 != nil && p7 != nil {
 			wn, _ := strOf(w7.fields["Name"])
